@@ -68,6 +68,15 @@ def gen_op(rng, w, first, hardlinks):
     if k < 0.60:
         return ['rename', d, ex(), rpath(rng)]
     if k < 0.64:
+        if rng.random() < 0.35 and len(have) > 1:
+            # exchange inode numbers; among files of equal size and time-stamp only while the recorded inodes are not usable
+            # (with usable inodes the tool rightly takes inode + size + time-stamp as identity)
+            usable = w.inodes_usable(w.content(), d)
+            pairs = [(x, y) for x in have for y in have if x < y and T[d]['files'][x][3] == 1 and T[d]['files'][y][3] == 1 and
+                     (not usable or T[d]['files'][x][:2] != T[d]['files'][y][:2])]
+            same = [(x, y) for (x, y) in pairs if T[d]['files'][x][:2] == T[d]['files'][y][:2]]
+            if pairs:
+                return ['inoswap', d] + list(rng.choice(same or pairs))
         return ['swap', d, ex(), ex()]
     if k < 0.71:
         return ['move', d, ex(), 'd%d' % rng.randint(1, nd), rpath(rng)]
@@ -85,7 +94,7 @@ def gen_op(rng, w, first, hardlinks):
     if k < 0.86:
         return ['restore', d, ex()]
     if k < 0.885:
-        return ['samestamp', d, ex(), 'd%d' % rng.randint(1, nd), rng.choice(DIRS) + rng.choice(['zz', 'yy.q'])]
+        return ['samestamp', d, ex(), d if rng.random() < 0.5 else 'd%d' % rng.randint(1, nd), rng.choice(DIRS) + rng.choice(['zz', 'yy.q'])]
     if k < 0.91:
         return ['symlink', d, rng.choice(DIRS) + rng.choice(['a', 'ln', 'lm']), rng.choice(['a', '../b', 'nowhere', 'da'])]
     if k < 0.935 and hardlinks:
@@ -175,7 +184,7 @@ def incomplete(st):
 class Hist:
     def __init__(self, chk, binary, shim, model, rng, cfg):
         self.chk, self.rng, self.cfg = chk, rng, cfg
-        self.w = World(binary, shim, rng, nd=cfg['nd'], np_=cfg['np'], order=cfg['order'], fake_uuid=cfg['uuid'], multi=cfg['multi'], where=cfg['where'], filters=cfg.get('filters', False), murmur=cfg.get('murmur', False), splits=cfg.get('splits', 1))
+        self.w = World(binary, shim, rng, nd=cfg['nd'], np_=cfg['np'], order=cfg['order'], fake_uuid=cfg['uuid'], multi=cfg['multi'], where=cfg['where'], filters=cfg.get('filters', False), murmur=cfg.get('murmur', False), splits=cfg.get('splits', 1), ncontent=cfg.get('ncontent', 1))
         self.model = None if cfg['multi'] else model     # the model scans the disks one after the other: threaded histories are judged by the oracles only
         self.recorded = None        # view() of the tree at the last sync (what the array is supposed to know)
         self.ncmd = 0
@@ -192,8 +201,12 @@ class Hist:
         self.chk.violation(tag, 'MODEL-DRIFT: ' + what, {'config': self.cfg, 'history': self.w.log, **kw}, no_input=True)
 
     # ----------------------------------------------------------------------------------------------
-    def step(self, ops, partial=False, invisible=False, popts=None):
+    def step(self, ops, partial=False, invisible=False, popts=None, fixpoint=False):
         w, a = self.w, self.w.arr
+        plan = self.cfg.get('uuid_plan')
+        if plan:
+            # the UUID the disks report changes between the commands of one history: none -> a UUID, a UUID -> none
+            w.fake_uuid = plan[self.stats['steps'] % len(plan)]
         if ops is None:
             ops = apply_ops(self.rng, w, self.stats['steps'] == 0, self.cfg['order'] == 'alpha')
         else:
@@ -285,6 +298,17 @@ class Hist:
         perr, n = a.check_parity(st2)
         for e in (errs + perr)[:2]:
             self.bad('c06_oracle', 'after a successful sync: %s' % e)
+            return False
+        for i in range(1, len(a.content_files)):
+            sti = a.content(i)
+            if sti['disks'] != st2['disks'] or sti['info'] != st2['info']:
+                self.bad('content_copies', 'after a successful sync the content copies %d and 0 record different arrays' % i)
+                return False
+        def recorded_part(st, ref):
+            # inode numbers of a disk whose recorded inodes are not usable are kept in memory only and saved by the way: not compared
+            return {d: dict(dd, files=[dict(f, inode=(f['inode'] if w.inodes_usable(ref, d) else 0)) for f in dd['files']]) for d, dd in st['disks'].items()}
+        if fixpoint and exp == 0 and st0 is not None and (recorded_part(st2, st0) != recorded_part(st0, st0) or st2['blockmax'] != st0['blockmax']):
+            self.bad('not_a_fixpoint', 'a sync with nothing to do (diff exit 0) changed what the content file records')
             return False
         w.learn_hashes(st2)
         inc2 = incomplete(st2)
@@ -489,6 +513,59 @@ def scripted(chk, binary, shim, model, rng, tier):
         finally:
             shutil.rmtree(H.w.arr.root, ignore_errors=True)
         out.append(H)
+    for v in range(4 if tier == 'quick' else 12):
+        # (h) the UUID reported by the disks changes between two commands (none -> one, one -> none, and back) while files of equal size and
+        #     time-stamp exchange their inode numbers (names and bytes stay): nothing changed, nothing may be taken as moved; check stays quiet
+        plan = [[False, True, True, False], [True, True, False, False], [False, True, False, True], [True, False, True, True]][v % 4]
+        cfg = {'nd': 2, 'np': 1 + v % 2, 'order': ['alpha', 'inode', 'dir', 'physical'][(v // 4) % 4 if v >= 4 else 0], 'uuid': plan[0], 'multi': False, 'where': 'tmpfs',
+               'both_scans': False, 'seed': rng.getrandbits(32), 'scripted': 'uuid_transition', 'uuid_plan': plan, 'ncontent': 1 + (v // 2) % 2, 'splits': 1 + v % 3}
+        H = Hist(chk, binary, shim, model, random.Random(cfg['seed']), cfg)
+        try:
+            ok = H.step([['create', 'd1', 'X', 3000], ['samestamp', 'd1', 'X', 'd1', 'Y'], ['samestamp', 'd1', 'X', 'd1', 'da/Z'], ['create', 'd1', 'w', 100], ['create', 'd2', 'other', 2048]])
+            for t in range(1, 4):
+                swap = [['inoswap', 'd1', 'X', 'Y']] if t % 2 else [['inoswap', 'd1', 'Y', 'da/Z'], ['inoswap', 'd1', 'X', 'w']]
+                # the exchange among same-stamp files only when this step's commands cannot use the recorded inodes
+                H.w.fake_uuid = plan[t]
+                usable = H.w.inodes_usable(H.w.content(), 'd1')
+                ok = ok and H.step(([['inoswap', 'd1', 'X', 'w']] if usable else swap) + ([['create', 'd2', 'n%d' % t, 10]] if t == 2 else []), fixpoint=True)
+            if ok and model:
+                c11_model.flush_drift(H)
+        finally:
+            shutil.rmtree(H.w.arr.root, ignore_errors=True)
+        out.append(H)
+    for v in range(3 if tier == 'quick' else 9):
+        # (i) syncs in which ONE single kind of thing changed, each followed by a sync with nothing to do (a fixed point), over geometries in
+        #     which the content file is saved only when something asks for it (split parity: the parity sizes are stored) and several content copies
+        geo = [{'splits': 2, 'ncontent': 2, 'np': 1}, {'splits': 3, 'ncontent': 1, 'np': 2}, {'splits': 1, 'ncontent': 3, 'np': 1}][v % 3]
+        cfg = {'nd': 2 + (v // 3) % 2, 'order': ['alpha', 'dir', 'inode'][(v // 3) % 3], 'uuid': True, 'multi': False, 'where': 'tmpfs', 'both_scans': False,
+               'seed': rng.getrandbits(32), 'scripted': 'only_one_change', 'gui': v % 2 == 0, **geo}
+        H = Hist(chk, binary, shim, model, random.Random(cfg['seed']), cfg)
+        try:
+            ok = H.step([['create', 'd1', 'a', 2500], ['create', 'd1', 'e0', 0], ['create', 'd2', 'b', 1024], ['symlink', 'd1', 'l', 'a'], ['mkdir', 'd2', 'emp'], ['create', 'd2', 'db/e1', 0]])
+            ok = ok and H.step([['create', 'd2', 'filler', 3]])          # the fake UUIDs are recorded: inodes usable from here on
+            kinds = [[['create', 'd1', 'marker.lock', 0], ['create', 'd2', 'newdir/keep', 0]],        # only new empty files
+                     [['mkdir', 'd1', 'newemp'], ['mkdir', 'd2', 'x/y/z']],                         # only new empty directories
+                     [['symlink', 'd2', 'nl', 'nowhere']],                                            # only a new link
+                     [['delete', 'd1', 'e0']],                                                        # only an empty file removed
+                     [['restore', 'd1', 'a']],                                                        # only an inode changed
+                     [['samesec', 'd2', 'b', 'touch']],                                               # only the nanoseconds of a time-stamp
+                     [['touch', 'd2', 'db/e1']],                                                      # only the time-stamp of an empty file
+                     [['symlink', 'd1', 'l', 'b']],                                                   # only a link target
+                     [['delete', 'd2', 'emp']],                                                       # only an empty directory removed
+                     [['delete', 'd2', 'nl']],                                                        # only a link removed
+                     [['rename', 'd2', 'newdir/keep', 'newdir/kept']],                                # only an empty file renamed
+                     [['create', 'd1', 'one', 1]]]                                                    # only one new one-byte file
+            if cfg['order'] == 'alpha':
+                kinds.append([['hardlink', 'd1', 'a', 'zhard']])                                      # only a second name of an inode
+            H.rng.shuffle(kinds)
+            for kops in kinds:
+                ok = ok and H.step(kops)
+                ok = ok and H.step([], fixpoint=True)
+            if ok and model:
+                c11_model.flush_drift(H)
+        finally:
+            shutil.rmtree(H.w.arr.root, ignore_errors=True)
+        out.append(H)
     for v in range(2):
         # (g) a data disk that holds no regular file at all, only links and empty directories (from the start, or after its files left)
         cfg = {'nd': 3, 'np': 1, 'order': ['alpha', 'dir'][v], 'uuid': v == 0, 'multi': False, 'where': 'tmpfs', 'both_scans': False,
@@ -636,7 +713,8 @@ def configs(rng, n):
     for h in range(n):
         order = ORDERS[h % 4]
         cfgs.append({'nd': rng.choice([2, 2, 3]), 'np': rng.choice([1, 1, 2]), 'order': order, 'uuid': h % 3 != 2, 'multi': h % 5 == 4,
-                     'where': 'disk' if h % 4 == 3 or h % 7 == 5 else 'tmpfs', 'both_scans': h % 2 == 0, 'seed': rng.getrandbits(32), 'gui': h % 3 == 1, 'filters': h % 4 == 2, 'splits': 2 if h % 5 == 3 else 1})
+                     'where': 'disk' if h % 4 == 3 or h % 7 == 5 else 'tmpfs', 'both_scans': h % 2 == 0, 'seed': rng.getrandbits(32), 'gui': h % 3 == 1, 'filters': h % 4 == 2, 'splits': (2 + (h // 5) % 2) if h % 5 == 3 else 1, 'ncontent': 2 if h % 6 == 4 else 1,
+                     'uuid_plan': [[False, True], [True, True, False], [False, False, True, True]][(h // 7) % 3] if h % 7 in (2, 5) else None})
     return cfgs
 
 
